@@ -1,52 +1,8 @@
-(* C02 — flat-integer interface of the model for the generic OCaml driver. *)
+(* C02 — flat-integer interface of the model for the generic OCaml driver.  The four entry
+   points (and the wire decoding) are defined in Case.v, where Proofs_Case.v reasons about
+   them; this file only extracts them. *)
 From Coq Require Import List ZArith Bool.
-From Verif Require Import Lib.Wire C02.Model C02.Spec.
-Import ListNotations.
-Open Scope Z_scope.
-
-(* input wire format:  total k  then k records  name request weight min guarantee lend  (insertion order)
-   observable wire format: k runtimes in ascending order of name rank 1..k, for each of two runs *)
-Fixpoint decode_nodes (k : nat) (l : list Z) : list node :=
-  match k, l with
-  | S k', a :: b :: c :: d :: e :: f :: t =>
-      mkNode a b c d e (negb (f =? 0)) :: decode_nodes k' t
-  | _, _ => []
-  end.
-
-Definition decode (inp : list Z) : Z * list node :=
-  match inp with
-  | total :: k :: t => (total, decode_nodes (Z.to_nat k) t)
-  | _ => (0, [])
-  end.
-
-(* [obs_of] (runtime per name rank 1..k) is defined in Spec.v, where the theorems use it *)
-(* the observable carries two runs of the implementation (second one: fresh tree, reverse
-   insertion order, another random map iteration order) *)
-Definition run_case (inp : list Z) : list Z :=
-  let '(total, ns) := decode inp in
-  obs_of ns (redistribution total ns) ++ obs_of ns (redistribution total (rev ns)).
-
-Fixpoint eq_listZ (a b : list Z) : bool :=
-  match a, b with
-  | [], [] => true
-  | x :: a', y :: b' => (x =? y) && eq_listZ a' b'
-  | _, _ => false
-  end.
-
-(* property decision on the implementation's observable; 0 = holds, otherwise clause number
-   (6 = the two runs differ: the division depends on iteration order) *)
-Definition prop_case (inp obs : list Z) : Z :=
-  let '(total, ns) := decode inp in
-  let k := length ns in
-  let o1 := firstn k obs in let o2 := skipn k obs in
-  if negb (eq_listZ o1 o2) then 6 else prop_code total ns o1.
-
-Definition nontrivial_case (inp : list Z) : bool :=
-  let '(total, ns) := decode inp in
-  (1 <? Z.of_nat (length ns)) && existsb needs_adjust ns
-  && (sumZ (map init_runtime ns) <? total).
-
-Definition finding_sig (inp obs : list Z) : Z := 0.
+From Verif Require Import Lib.Wire C02.Model C02.Spec C02.Case.
 
 Require Extraction.
 Require Import ExtrOcamlBasic.
